@@ -84,3 +84,14 @@ package resolver
 //@   loop 4 invariant true
 //@   assert at call unsubscribe#1 lastnew("clusterInfo.refCount") == 0 && implies(lastold("clusterInfo.refCount") > -2147483648, lastold("clusterInfo.refCount") == 1)
 //@   assert at call sendNewServiceConfig#1 lastnew("clusterInfo.refCount") == 0 && implies(lastold("clusterInfo.refCount") > -2147483648, lastold("clusterInfo.refCount") == 1)
+
+// addOrGetActiveClusterInfo: the entry the resolver keeps for a key is created
+// once and handed out again on every later update, so the references RPCs hold
+// and the references the pruning step reads are on the same object; a new
+// entry (and a new subscription) is made only for a key that has none.
+//@ func (*xdsResolver).addOrGetActiveClusterInfo
+//@   prop C51
+//@   requires r != nil && r.activeClusters != nil && r.activePlugins != nil
+//@   assert at return 1 name == "" && result0 != nil && haskey(r.activePlugins, key) && r.activePlugins[key] == result0 && implies(old(haskey(r.activePlugins, key)), result0 == old(r.activePlugins[key])) && ncalls("SubscribeToCluster") == 0
+//@   assert at return 2 name != "" && result0 != nil && haskey(r.activeClusters, key) && r.activeClusters[key] == result0 && implies(old(haskey(r.activeClusters, key)), result0 == old(r.activeClusters[key]) && ncalls("SubscribeToCluster") == 0)
+//@   assert at call SubscribeToCluster#1 !haskey(r.activeClusters, key) && arg1 == name
